@@ -15,15 +15,52 @@ SCRATCH = os.path.join(vlib.CACHE, "symmap")
 
 # --------------------------------------------------------------------------- real code
 def _run_symdump_once(exe, wss, timeout):
-    """returns (results list or None, n_done, reason)"""
+    """returns (results list or None, n_done, reason).  A batch is also given up when no workspace finishes within
+    max(40, timeout/3) seconds (progress markers on stderr): a hanging workspace costs that much, not the whole timeout."""
+    import threading
     p = subprocess.Popen([exe], stdin=subprocess.PIPE, stdout=subprocess.PIPE, stderr=subprocess.PIPE, text=True)
-    try:
-        out, err = p.communicate(json.dumps(wss), timeout=timeout)
-    except subprocess.TimeoutExpired:
-        p.kill()
-        out, err = p.communicate()
-        return None, err.count("done "), "hang (no answer within %ss)" % timeout
-    done = err.count("done ")
+    st = {"done": 0, "last": time.time(), "err": [], "out": ""}
+
+    def rd_err():
+        for line in p.stderr:
+            st["err"].append(line)
+            if line.startswith("done "):
+                st["done"] += 1
+                st["last"] = time.time()
+
+    def rd_out():
+        st["out"] = p.stdout.read()
+
+    def wr_in():
+        try:
+            p.stdin.write(json.dumps(wss))
+            p.stdin.close()
+        except (BrokenPipeError, OSError):
+            pass
+    ths = [threading.Thread(target=f, daemon=True) for f in (rd_err, rd_out, wr_in)]
+    for t in ths:
+        t.start()
+    t0 = time.time()
+    stall = max(40, timeout // 3)
+    why = None
+    while p.poll() is None:
+        time.sleep(0.1)
+        now = time.time()
+        if now - t0 > timeout:
+            why = "hang (no answer within %ss)" % timeout
+        elif len(wss) > 1 and now - st["last"] > stall:
+            why = "hang (no progress within %ss)" % stall
+        if why:
+            p.kill()
+            break
+    p.wait()
+    for t in ths:
+        t.join(5)
+    err = "".join(st["err"])
+    done = st["done"]
+    if why:
+        return None, done, why
+    out = st["out"]
     if p.returncode != 0:
         sig = -p.returncode if p.returncode < 0 else p.returncode
         why = "process died (%s)" % ("signal %d" % sig if p.returncode < 0 else "exit %d" % sig)
@@ -419,6 +456,33 @@ def c17_oracle(ws, real):
         chk("define_loc", *s["def"])
         for r in s["refs"]:
             chk("reference_loc", *r)
+    # after a trivia-only re-edit through set_file_content alone (symdump "reedit"): every range valid in the CURRENT text
+    re_ = real.get("re")
+    if re_:
+        for p, t in ws.get("reedit", []):
+            texts_b[p] = t.encode("utf-8")
+        pre = "after set_file_content (no set_root_file): "
+        for f, ds in re_["diagnostics"].items():
+            for lo, hi, _m in ds:
+                chk(pre + "diagnostic", f, lo, hi)
+
+        def walk2(f, s):
+            chk(pre + "document symbol", f, s["range"][0], s["range"][1])
+            for c in s["children"]:
+                walk2(f, c)
+        for f, ss in re_["symbols"].items():
+            for s in ss or []:
+                walk2(f, s)
+        for f, h in re_["hints"].items():
+            for lo, hi, hs in h["distinct"]:
+                for pos, _label, _kind in hs or []:
+                    chk(pre + "inlay hint position", f, pos, pos)
+        for f, runs in re_["at"].items():
+            for run in runs:
+                if run["def"] is not None:
+                    chk(pre + "definition", *run["def"])
+                for r in run["refs"] or []:
+                    chk(pre + "reference", *r)
     return bad, n
 
 
